@@ -17,8 +17,8 @@ import (
 	e "haqqsim/engine"
 
 	haqqtypes "github.com/haqq-network/haqq/types"
-	vestingtypes "github.com/haqq-network/haqq/x/vesting/types"
 	evmtypes "github.com/haqq-network/haqq/x/evm/types"
+	vestingtypes "github.com/haqq-network/haqq/x/vesting/types"
 )
 
 // C03 — only the key holder can authorise a transaction, once.
